@@ -181,15 +181,20 @@ impl StringHeap {
 
         let mut string = String::new();
 
-        let old_pos = reader.stream_position().unwrap();
+        let Ok(old_pos) = reader.stream_position() else {
+            return string;
+        };
 
-        reader.seek(SeekFrom::Start(offset)).unwrap();
-        let mut next_char = reader.read_le::<u8>().unwrap() as char;
-        while next_char != '\0' {
-            string.push(next_char);
-            next_char = reader.read_le::<u8>().unwrap() as char;
+        // a string that runs into the end of the file ends there
+        if reader.seek(SeekFrom::Start(offset)).is_ok() {
+            while let Ok(next_char) = reader.read_le::<u8>() {
+                if next_char == 0 {
+                    break;
+                }
+                string.push(next_char as char);
+            }
         }
-        reader.seek(SeekFrom::Start(old_pos)).unwrap();
+        let _ = reader.seek(SeekFrom::Start(old_pos));
         string
     }
 }
